@@ -1478,7 +1478,7 @@ impl<'a, 'd> Gen<'a, 'd> {
             _ => 14,
         };
         let clo_w = match self.cfg.focus {
-            Focus::Closures => 40,
+            Focus::Closures => 90,
             _ => 10,
         };
         match self.d.weighted(&[100, call_w, if self.cfg.closures { clo_w } else { 0 }]) {
@@ -1500,7 +1500,7 @@ impl<'a, 'd> Gen<'a, 'd> {
             if self.cfg.ticks { 14 } else { 0 },    // effect statement
             if self.cfg.whiles && fuel > 1 { 8 } else { 0 }, // while
             8,                                      // ref_set
-            if self.cfg.closures { if self.cfg.focus == Focus::Closures { 30 } else { 10 } } else { 0 }, // let closure
+            if self.cfg.closures { if self.cfg.focus == Focus::Closures { 60 } else { 10 } } else { 0 }, // let closure
             if self.cfg.containers { 5 } else { 0 }, // vec push chain
         ];
         match self.d.weighted(&w) {
@@ -1632,7 +1632,30 @@ impl<'a, 'd> Gen<'a, 'd> {
         if generic {
             self.label("generic-fn");
         }
-        let body = self.block(&ret, 3);
+        // a function whose result is a closure it creates (the one escaping flow
+        // that works while KF-05 is open): the closure literal is the final expression
+        let returns_closure = self.cfg.closures
+            && !self.esc_ok
+            && tparams == 0
+            && self.d.chance(if self.cfg.focus == Focus::Closures { 100 } else { 30 });
+        let (ret, body) = if returns_closure {
+            let n = self.d.below(3);
+            let ps: Vec<Ty> = (0..n).map(|_| self.ty(1)).collect();
+            let r = self.ty(1);
+            let saved = self.scope.len();
+            let k = self.d.below(3);
+            let mut stmts = vec![];
+            for _ in 0..k {
+                stmts.extend(self.stmt(2));
+            }
+            let c = self.closure(&ps, &r, 3);
+            self.scope.truncate(saved);
+            self.label("closure:returned");
+            (Ty::Fn(ps, Box::new(r)), Expr::Block(stmts, Some(Box::new(c))))
+        } else {
+            let body = self.block(&ret, 3);
+            (ret, body)
+        };
         self.scope.clear();
         self.p.fns[idx] = FnDef {
             name: self.item_name(&HOSTILE_FNS, format!("f{}", idx)),
